@@ -73,6 +73,13 @@ def gen_batches(rng, n_max=3, p_custom=0.4, p_k=0.15, sims=4, p_time=0.3, p_repr
     return bs
 
 
+def gen_argforms(rng):
+    """How plain integer arguments arrive: Python ints or NumPy integer scalars (lane counts taken from array shapes, seeds
+    and lane restrictions taken from arrays)."""
+    t = ['int', 'int', 'int', 'int64', 'int32']
+    return {'sims': rng.choice(t), 'k': rng.choice(t), 'seed': rng.choice(t + ['uint32'])}
+
+
 def gen_actrl(rng, p=0.35):
     if rng.random() > p: return None
     n_acc = rng.randint(1, 4)
